@@ -349,7 +349,8 @@ vf::Blk* do_alloc(State& S, int force_ep, size_t force_size) {
           vf_trip("strdup-contents", generic_refutes(), "a strdup-family call with a NULL source returned a block");
         char ref[PATH_MAX]; char* rp = realpath("/usr/../usr/lib/..", ref);
         char* mp = mi_realpath("/usr/../usr/lib/..", nullptr);
-        if (rp != nullptr) {
+        if (rp != nullptr && mp == nullptr && S.cfg.allow_null) { vf_err_reset(); }      // (fault profiles: the copy may be refused by the OS)
+        else if (rp != nullptr) {
           if (mp == nullptr || strcmp(mp, rp) != 0) vf_trip("strdup-contents", generic_refutes(), "mi_realpath returned %s, realpath says %s", mp ? mp : "NULL", rp);
           if (mi_usable_size(mp) < strlen(rp) + 1) vf_trip("usable-size", "C03", "mi_realpath: block of %zu usable bytes for a name of %zu characters", mi_usable_size(mp), strlen(rp));
           char buf[PATH_MAX]; char* rb = mi_realpath("/usr/../usr/lib/..", buf);     // (declared with the malloc attribute although it returns the caller's buffer here: compare laundered addresses)
